@@ -1512,10 +1512,56 @@ impl World {
             self.res.feat_add("big_stage_roundtrips", 1);
         }
         if replay {
+            // sometimes news arrive between discarding and replaying: the replay then lands on a newer
+            // state (no exact expectation, it must simply work and leave a state the audits accept)
+            let mut moved_on = false;
+            if !by_restart && self.reps.len() > 1 && self.r.chance(15) {
+                let n = self.reps.len();
+                let j = (i + 1 + self.r.below(n - 1)) % n;
+                if !self.reps[j].dead {
+                    self.t(format!("r{}.meld(r{}) + refresh between unstage and replay", i, j));
+                    let (a, b) = self.two(i, j);
+                    let mr = guard(|| {
+                        a.m.meld(&b.m)?;
+                        a.m.refresh()
+                    });
+                    match mr {
+                        Outcome::Ok(()) => {
+                            let o = observe(&self.reps[i].m);
+                            moved_on = o.s_value(false) != st.s_value(false);
+                            self.reps[i].behind = false;
+                            self.reps[i].clean = o;
+                        }
+                        Outcome::Err(e) => self.res.viol("C08", "meld-refresh-returned-error", e),
+                        Outcome::Panic(p) => {
+                            self.panic_viol("C08", "meld+refresh", &p);
+                            self.reps[i].dead = true;
+                            return;
+                        }
+                    }
+                }
+            }
+            let twice = self.r.chance(25);
             let res = {
                 let m = &self.reps[i].m;
-                guard(|| m.replay_stage(&stg))
+                guard(|| {
+                    m.replay_stage(&stg)?;
+                    if twice {
+                        // replaying the same export again changes nothing
+                        m.replay_stage(&stg)?;
+                    }
+                    Ok(())
+                })
             };
+            if moved_on {
+                self.res.feat_add("replays_onto_newer_state", 1);
+                if let Outcome::Panic(p) = &res {
+                    self.panic_viol("C15", "replay_stage", p);
+                    self.reps[i].dead = true;
+                }
+                self.reps[i].last_doc = None;
+                return;
+            }
             match res {
                 Outcome::Ok(()) => {
                     let st2 = observe(&self.reps[i].m);
